@@ -117,3 +117,18 @@ Example C07_repeat_nonvacuous : exists st' root,
   map (fun a => (kind_of (x_graph st') a, outs_of (x_graph st') a)) (outs_of (x_graph st') root) =
     [(KLeaf false, []); (KDec true true, [0; 0]); (KDec true true, [0; 5]); (KDec true true, [0; 0; 0])].
 Proof. eexists. eexists. split; vm_compute; reflexivity. Qed.
+
+(* ... and the boundary cases are all there: below the decision _repeat returns hang the "no occurrence" leaf, a
+   do-all with exactly minOccurs occurrences when minOccurs > 0, a do-all with minOccurs - 1 occurrences and a leaf
+   marked invalid when minOccurs > 1, and a do-all with exactly maxOccurs (unbounded: minOccurs + 1) occurrences when
+   that differs from minOccurs. *)
+Theorem C07_repeat_offers : forall child mn mx st st' root,
+  child < xlen st -> repeat_node child mn mx st = Ok (st', root) ->
+  let mx' := match mx with None => mn + 1 | Some m => m end in
+  let g := x_graph st' in
+  Has child root g (SEmpty (mn =? 0)) /\
+  (0 < mn -> Has child root g (SK mn)) /\
+  (1 < mn -> Has child root g (SInv (mn - 1))) /\
+  (mx' <> mn -> Has child root g (SK mx')).
+Proof. exact repeat_node_offers. Qed.
+Print Assumptions C07_repeat_offers.
